@@ -25,5 +25,6 @@ def run(rep, tier, seed):
     D.run_contracts(rep, "C06", D.PART_HEUR + D.FIT + D.COVER + D.TQ, tier, with_lemmas=True)
     D.run_contracts(rep, "C06", D.binners(), tier, also=("C16",))
     D.run_contracts(rep, "C06", D.relational(), tier)
+    D.run_contracts(rep, "C06", D.adaptors(), tier)
     t3(rep, tier, seed)
     D.link_falsifier(rep)
